@@ -168,6 +168,11 @@ def layout_isa(draw, address_sizes=(8, 12, 16, 16, 16, 24, 32, 10, 18), zones=Fa
                        'offset': {'size': 8, 'byte_align': True}},
             'imm': {'type': 'numeric', 'bytecode': {'value': 3, 'size': 2}, 'argument': {'size': 16, 'byte_align': True}},
         }},
+        'mem': {'operand_values': {
+            'ind': {'type': 'indirect_numeric', 'bytecode': {'value': 1, 'size': 2}, 'argument': {'size': 16, 'byte_align': True}},
+            'dfr': {'type': 'deferred_numeric', 'bytecode': {'value': 2, 'size': 2}, 'argument': {'size': 16, 'byte_align': True}},
+            'imm': {'type': 'numeric', 'bytecode': {'value': 0, 'size': 2}, 'argument': {'size': 8, 'byte_align': True}},
+        }},
         # a numeric enumeration ahead of registers in one set: a register name in any letter case is still the register
         'sel': {'operand_values': {
             'which': {'type': 'numeric_enumeration', 'bytecode': {'size': 4, 'value_dict': {0: 3, 1: 7, 5: 9}}},
@@ -203,6 +208,8 @@ def layout_isa(draw, address_sizes=(8, 12, 16, 16, 16, 24, 32, 10, 18), zones=Fa
                 'operands': {'count': 2, 'operand_sets': {'list': ['regs', 'regs']}}},
         'brb': {'bytecode': {'value': draw(st.integers(0, 255)), 'size': 8},
                 'operands': {'count': 1, 'operand_sets': {'list': ['relb']}}},
+        'ldm': {'bytecode': {'value': draw(st.integers(0, 63)), 'size': 6},
+                'operands': {'count': 1, 'operand_sets': {'list': ['mem']}}},
     }
     return cfg
 
@@ -320,7 +327,11 @@ class Builder:
     # -- item makers -------------------------------------------------------------------------------
     def instr(self, refs=True):
         d = self.draw
-        kind = d(st.sampled_from(['nop', 'ldi', 'w12', 'jmp', 'jmp', 'mov', 'mov', 'ldx', 'br', 'sel']))
+        kind = d(st.sampled_from(['nop', 'ldi', 'w12', 'jmp', 'jmp', 'mov', 'mov', 'ldx', 'br', 'sel', 'ldm']))
+        if kind == 'ldm':
+            k = d(st.sampled_from(['indnum', 'defnum', 'expr']))
+            v = d(st.integers(0, 255 if k == 'expr' else 65535))
+            return {'t': 'instr', 'mn': 'ldm', 'ops': [{'k': k, 'e': isagen.value_ast(d, v, None, simple=(k != 'expr'))}]}
         if kind == 'sel':
             if d(st.booleans()):
                 return {'t': 'instr', 'mn': 'sel', 'ops': [{'k': 'reg', 'r': d(st.sampled_from(['a', 'x'])), 'deco': None}]}
